@@ -5,6 +5,7 @@
 //! and written into the `srv poll` op, so that the Lean model can replay the call deterministically.
 use crate::conn::RespSpec;
 use crate::emit::Rec;
+use crate::inject::{self, RecvFault, WriteFault};
 use crate::show::*;
 use micro_http::{HttpServer, ServerError, ServerRequest};
 use std::collections::{BTreeMap, BTreeSet, VecDeque};
@@ -32,6 +33,11 @@ pub struct ClientSim {
     pub misbehaved: bool,
     /// the server tried to write to this client and the write failed (peer shut down its read side)
     pub write_failed: bool,
+    /// an injected fault told the server that this stream ended or failed (end of stream on a read, zero / error
+    /// on a write): the server must treat the connection as closed although the client is still there
+    pub srv_closed: bool,
+    /// an injected read error (the server answers those with a 500)
+    pub recv_err_injected: bool,
 }
 
 pub struct Held {
@@ -62,6 +68,10 @@ pub struct World {
     pub n_refused: usize,
     pub shutdown_polls: usize,
     pub nonshutdown_after_kill: usize,
+    /// faults armed for the next `requests()` call (inject.rs), by server-side descriptor
+    pub armed_recv: BTreeMap<RawFd, RecvFault>,
+    pub armed_write: BTreeMap<RawFd, WriteFault>,
+    pub faults_taken: usize,
 }
 
 pub fn open_fds() -> BTreeSet<RawFd> {
@@ -172,6 +182,9 @@ impl World {
             n_refused: 0,
             shutdown_polls: 0,
             nonshutdown_after_kill: 0,
+            armed_recv: BTreeMap::new(),
+            armed_write: BTreeMap::new(),
+            faults_taken: 0,
         };
         w.emit(rec, "srv new".into(), "ok".into());
         if let Some(l) = limit {
@@ -221,6 +234,8 @@ impl World {
             avail: 0,
             misbehaved: false,
             write_failed: false,
+            srv_closed: false,
+            recv_err_injected: false,
         });
         self.backlog.push_back(i);
         self.note(rec, &format!("client {} connect", i));
@@ -300,6 +315,30 @@ impl World {
 
     pub fn ready(&self) -> bool {
         fd_ready(self.epfd)
+    }
+
+    /// The next `recv` the server makes on client `i`'s connection returns end of stream / fails with an errno
+    /// (inject.rs) — on an `IN` event that carries no hang-up flag, which a real AF_UNIX peer cannot produce.
+    pub fn arm_recv_fault(&mut self, rec: &mut Rec, i: usize, f: RecvFault) {
+        if let Some(fd) = self.clients[i].srv_fd {
+            if self.by_fd.get(&fd) == Some(&i) {
+                inject::arm_recv(fd, f);
+                self.armed_recv.insert(fd, f);
+                self.note(rec, &format!("inject: next recv on fd {} (client {}) -> {:?}", fd, i, f));
+            }
+        }
+    }
+
+    /// The next `write` the server makes on client `i`'s connection returns zero / fails with an errno / is cut
+    /// short to `k` bytes.
+    pub fn arm_write_fault(&mut self, rec: &mut Rec, i: usize, f: WriteFault) {
+        if let Some(fd) = self.clients[i].srv_fd {
+            if self.by_fd.get(&fd) == Some(&i) {
+                inject::arm_write(fd, f);
+                self.armed_write.insert(fd, f);
+                self.note(rec, &format!("inject: next write on fd {} (client {}) -> {:?}", fd, i, f));
+            }
+        }
     }
 
     fn interest_text(&self) -> String {
@@ -400,7 +439,12 @@ impl World {
                     flags.push('h');
                 }
                 let hup = flags.contains('h');
-                let rd = if flags.contains('i') && !hup {
+                let rd = if flags.contains('i') && !hup && self.armed_recv.contains_key(&fd) {
+                    match self.armed_recv[&fd] {
+                        RecvFault::Eof => "d.".to_string(),
+                        RecvFault::Errno(e) => format!("e{},{}", e, hx(vmm_sys_util::errno::Error::new(e).to_string().as_bytes())),
+                    }
+                } else if flags.contains('i') && !hup {
                     match peek(fd, 4096) {
                         Ok(b) => format!("d{}", hx(&b)),
                         Err(e) => format!("e{},{}", e, hx(vmm_sys_util::errno::Error::new(e).to_string().as_bytes())),
@@ -418,7 +462,57 @@ impl World {
         // the call itself
         Rec::about_to("server.requests()");
         let server = self.server.as_mut().unwrap();
+        inject::start_counting();
         let res = catch_unwind(AssertUnwindSafe(|| server.requests()));
+        inject::stop_counting();
+        // which armed faults did the server run into?
+        let mut recv_taken: BTreeMap<RawFd, RecvFault> = BTreeMap::new();
+        let mut write_taken: BTreeMap<RawFd, WriteFault> = BTreeMap::new();
+        // a fault counts as taken if the server made the call on that descriptor during this poll
+        let mut still_armed: BTreeMap<RawFd, RecvFault> = BTreeMap::new();
+        for (fd, f) in std::mem::take(&mut self.armed_recv) {
+            if inject::recv_calls(fd) > 0 {
+                recv_taken.insert(fd, f);
+            }
+            if f == RecvFault::Eof {
+                // end of stream stays (the kernel never un-ends a stream) until the descriptor is released
+                still_armed.insert(fd, f);
+            } else {
+                inject::disarm_recv(fd);
+            }
+        }
+        self.armed_recv = still_armed;
+        for (fd, f) in std::mem::take(&mut self.armed_write) {
+            inject::disarm_write(fd);
+            if inject::write_calls(fd) > 0 {
+                write_taken.insert(fd, f);
+            }
+        }
+        self.faults_taken += recv_taken.len() + write_taken.len();
+        for (fd, f) in &recv_taken {
+            if let Some(i) = self.by_fd.get(fd).cloned() {
+                self.clients[i].misbehaved = true;
+                match f {
+                    RecvFault::Eof => self.clients[i].srv_closed = true,
+                    RecvFault::Errno(_) => self.clients[i].recv_err_injected = true,
+                }
+            }
+        }
+        for (fd, f) in &write_taken {
+            if let Some(i) = self.by_fd.get(fd).cloned() {
+                match f {
+                    WriteFault::Zero => {
+                        self.clients[i].srv_closed = true;
+                        self.clients[i].misbehaved = true;
+                    }
+                    WriteFault::Errno(e) if *e != libc::EINTR => {
+                        self.clients[i].srv_closed = true;
+                        self.clients[i].misbehaved = true;
+                    }
+                    _ => {}
+                }
+            }
+        }
         let fds_after = open_fds();
         let deltas = self.observe_client_deltas();
         // accepted / refused
@@ -461,7 +555,13 @@ impl World {
                 Ok(s) if s == "L?" => ev_txt.push(format!("L{}", accepted_fd.unwrap_or(9999))),
                 Ok(s) => ev_txt.push(s),
                 Err(p) => {
-                    let wr = if p.is_out {
+                    let wr = if p.is_out && matches!(write_taken.get(&p.fd), Some(WriteFault::Zero) | Some(WriteFault::Errno(_))) {
+                        match write_taken[&p.fd] {
+                            WriteFault::Zero => "z".to_string(),
+                            WriteFault::Errno(e) if e == libc::EINTR => "i".to_string(),
+                            _ => "f".to_string(),
+                        }
+                    } else if p.is_out {
                         let d = w_by_fd.get(&p.fd).map(|v| v.len()).unwrap_or(0);
                         if d > 0 {
                             format!("a{}", d)
@@ -487,6 +587,8 @@ impl World {
         // dropped connections: server-side descriptors that disappeared
         let dropped: Vec<RawFd> = gone.iter().filter(|fd| self.by_fd.contains_key(fd)).cloned().collect();
         for fd in &dropped {
+            inject::disarm_recv(*fd);
+            self.armed_recv.remove(fd);
             if let Some(i) = self.by_fd.remove(fd) {
                 // keep srv_fd for reporting but mark as released
                 self.clients[i].accepted = false;
@@ -698,6 +800,9 @@ impl World {
     }
 
     pub fn teardown(&mut self) {
+        inject::disarm_all();
+        self.armed_recv.clear();
+        self.armed_write.clear();
         self.held.clear();
         self.clients.clear();
         self.server = None;
